@@ -34,6 +34,13 @@ MUT = [
     ('c02_set_cell_inplace_stale_width', 'C02', True, 'Row.set_cell beyond the end: the padding run enters _rmap with repeat 1',
      [(RW, '        elif diff > 0:\n            self.append_cell(Cell(repeated=diff), _repeated=diff, clone=False)\n            cell_back = self.append_cell(cell, _repeated=repeated, clone=clone)',
        '        elif diff > 0:\n            self.append_cell(Cell(repeated=diff), _repeated=1, clone=False)\n            cell_back = self.append_cell(cell, _repeated=repeated, clone=clone)')]),
+    ('c02_live_column_setter_no_owner', 'C02', True, 'Column.repeated setter without the refresh of the table that handed the live column out (the F8 repair removed for columns)',
+     [(TB, '        owner = getattr(self, "_owner", None)\n        if owner is not None:\n            owner._compute_table_cache()\n        current: Element = self', '        owner = getattr(self, "_owner", None)\n        if owner is not None:\n            pass\n        current: Element = self')]),
+    ('c02_row_rstrip_no_recompute', 'C02', True, 'Row.rstrip without `_compute_row_cache()` (the live wrapper keeps the map of the unstripped row)',
+     [(RW, '            self.delete(cell)\n        self._compute_row_cache()\n        self._indexes["_rmap"] = {}\n', '            self.delete(cell)\n        self._indexes["_rmap"] = {}\n')]),
+    ('c02_set_span_keeps_row_cache', 'C02', True, 'set_span puts the row-wrapper cache it had before the write back in place ("keep the cache warm"): wrappers of replaced row elements survive',
+     [(TB, '        # replace cells in table\n        self.set_cells(cells, coord=start, clone=False)\n        return True\n\n    def del_span',
+       '        # replace cells in table\n        saved = dict(self._indexes["_tmap"])\n        self.set_cells(cells, coord=start, clone=False)\n        self._indexes["_tmap"] = saved\n        return True\n\n    def del_span')]),
     ('seeded_C02-1', 'C02', True, 'independent: set_item_in_vault pops only the replaced slot from the cache when the write hits the first position of a run', 'seeded/C02-1/patch.diff'),
     ('seeded_C02-2', 'C02', True, 'independent: delete_item_in_vault `new_repeated > 1` (a run of exactly two)', 'seeded/C02-2/patch.diff'),
     ('seeded_C08-1_on_C02', 'C02', True, 'independent: set_item_in_vault pops only the slot of the replaced item', 'seeded/C08-1/patch.diff'),
